@@ -127,6 +127,37 @@ def run_case(case, tier):
                 rl[i].atoms[k] = a_
             recs = sources.emit(rl)
             classes.append("in-chain-hetero-residue")
+    if case["kind"] == "built" and rng.random() < 0.2:
+        # slightly pyramidal sp2 carbons (ARG CZ, ASN CG, GLN CD pushed 0.08-0.2 A out of the plane of their
+        # three neighbours, as in real low-resolution structures): the amide / guanidinium hydrogens must
+        # still be the same in every orientation
+        import math
+        want = {("ARG", "CZ"): ("NE", "NH1", "NH2"), ("ASN", "CG"): ("CB", "OD1", "ND2"), ("GLN", "CD"): ("CG", "OE1", "NE2")}
+        byres = {}
+        for r in recs:
+            if r.raw is None:
+                byres.setdefault((r.chain, r.resnum, r.icode, r.resn), {})[r.aname()] = r
+        moved_c = {}
+        for (ch, num, ic, resn), atoms_ in byres.items():
+            for (rn, cn), nb in want.items():
+                if resn == rn and cn in atoms_ and all(n in atoms_ for n in nb) and rng.random() < 0.6:
+                    p = [(atoms_[n].x, atoms_[n].y, atoms_[n].z) for n in nb]
+                    u = [p[1][k] - p[0][k] for k in range(3)]
+                    v = [p[2][k] - p[0][k] for k in range(3)]
+                    nrm = [u[1] * v[2] - u[2] * v[1], u[2] * v[0] - u[0] * v[2], u[0] * v[1] - u[1] * v[0]]
+                    ln = math.sqrt(sum(c * c for c in nrm)) or 1.0
+                    d = rng.choice((80, 120, 150, 200)) * rng.choice((1, -1))
+                    moved_c[atoms_[cn].akey()] = tuple(int(round(d * c / ln)) for c in nrm)
+        if moved_c:
+            out_ = []
+            for r in recs:
+                if r.raw is None and r.akey() in moved_c:
+                    dx, dy, dz = moved_c[r.akey()]
+                    r = r.copy()
+                    r.x, r.y, r.z = r.x + dx, r.y + dy, r.z + dz
+                out_.append(r)
+            recs = out_
+            classes.append("pyramidal-sp2-carbons")
     opts = [case["opt"]] if case["opt"] else []
     rot, trans, tkind, moved = motion.random_pose(rng, recs)
     back_key, inv, tinv = motion.key_mapper(rot, trans)
